@@ -10,7 +10,9 @@ from ..model import norm
 from . import diffcommon
 
 LEXEMES = [";", "{", "}", "(", ")", "[", "]", "=", "==", "+", "-", "*", "/", "%", "<", ">", "&", "|", "!", "?", ":", ",", ".",
-           "->", "#", "if", "else", "while", "return", "int", "//", "/*", "'", '"', "a", "0"]
+           "->", "#", "if", "else", "while", "return", "int", "//", "/*", "'", '"', "a", "0",
+           # an encoding prefix directly followed by the *other* quote, number prefixes: spellings that start a literal
+           "L'", "l'", "u'", "U'", "u8'", 'L"', 'u8"', "0x", "0b", "1e", ".5", "<%", "%:"]
 
 
 def pool(width, forbidden, cap):
